@@ -115,6 +115,9 @@ pub struct Pipe {
     /// read position: buffered content is hist[rpos..]
     pub rpos: usize,
     pub cap: usize,
+    /// Linux keeps a ring of page-sized buffers: (offset of the first unread byte within the page, unread length)
+    pub slots: std::collections::VecDeque<(usize, usize)>,
+    pub max_slots: usize,
     pub rdesc: usize,
     pub wdesc: usize,
     pub r_open: bool,
@@ -134,12 +137,52 @@ pub struct Pipe {
     pub r_closed_seq: Option<u64>,
 }
 
+pub const PAGE: usize = 4096;
+
 impl Pipe {
     pub fn avail(&self) -> usize {
         self.hist.len() - self.rpos
     }
-    pub fn free(&self) -> usize {
-        self.cap.saturating_sub(self.avail())
+    pub fn slot_free(&self) -> bool {
+        self.slots.len() < self.max_slots
+    }
+    /// can `rem` (< PAGE) bytes be appended to the last buffer?
+    pub fn can_merge(&self, rem: usize) -> bool {
+        match self.slots.back() {
+            Some((off, len)) => rem > 0 && off + len + rem <= PAGE,
+            None => false,
+        }
+    }
+    /// Append as Linux' pipe_write does; returns the number of bytes taken.
+    pub fn push(&mut self, data: &[u8]) -> usize {
+        let mut taken = 0;
+        let rem = data.len() % PAGE;
+        if rem > 0 && self.can_merge(rem) {
+            let b = self.slots.back_mut().unwrap();
+            b.1 += rem;
+            taken += rem;
+        }
+        while taken < data.len() && self.slot_free() {
+            let n = (data.len() - taken).min(PAGE);
+            self.slots.push_back((0, n));
+            taken += n;
+        }
+        self.hist.extend_from_slice(&data[..taken]);
+        taken
+    }
+    /// Consume n bytes from the head buffers.
+    pub fn pop(&mut self, mut n: usize) {
+        self.rpos += n;
+        while n > 0 {
+            let b = self.slots.front_mut().expect("pipe slots out of sync");
+            let k = n.min(b.1);
+            b.0 += k;
+            b.1 -= k;
+            n -= k;
+            if b.1 == 0 {
+                self.slots.pop_front();
+            }
+        }
     }
 }
 
@@ -678,6 +721,8 @@ impl Kernel {
             hist: vec![],
             rpos: 0,
             cap,
+            slots: Default::default(),
+            max_slots: (cap / PAGE).max(1),
             rdesc: rd,
             wdesc: wd,
             r_open: true,
@@ -836,11 +881,7 @@ impl Kernel {
                 if n == 0 {
                     return true;
                 }
-                if n <= PIPE_BUF {
-                    pp.free() >= n
-                } else {
-                    pp.free() > 0
-                }
+                pp.slot_free() || pp.can_merge(n % PAGE)
             }
             _ => true,
         }
@@ -870,7 +911,7 @@ impl Kernel {
                     n = n.min(m.max(1));
                 }
                 out[..n].copy_from_slice(&pp.hist[pp.rpos..pp.rpos + n]);
-                pp.rpos += n;
+                pp.pop(n);
                 self.touch();
                 Ok(n)
             }
@@ -907,23 +948,18 @@ impl Kernel {
                 if data.is_empty() {
                     return Ok(0);
                 }
-                let free = pp.free();
-                let mut n = if data.len() <= PIPE_BUF {
-                    if free < data.len() {
-                        return Err(Blk::Block);
-                    }
-                    data.len()
-                } else {
-                    if free == 0 {
-                        return Err(Blk::Block);
-                    }
-                    free.min(data.len())
-                };
+                let mut data = data;
                 if let Some(m) = max_take {
-                    n = n.min(m.max(1));
+                    data = &data[..data.len().min(m.max(1))];
                 }
-                pp.hist.extend_from_slice(&data[..n]);
-                if pp.free() == 0 {
+                if !(pp.slot_free() || pp.can_merge(data.len() % PAGE)) {
+                    return Err(Blk::Block);
+                }
+                let n = pp.push(data);
+                if n == 0 {
+                    return Err(Blk::Block);
+                }
+                if !pp.slot_free() {
                     pp.was_full = true;
                 }
                 if pid == PARENT_PID {
@@ -975,7 +1011,7 @@ impl Kernel {
             }
             DescKind::PipeW(p) => {
                 let pp = &self.pipes[p];
-                if pp.free() >= PIPE_BUF {
+                if pp.slot_free() {
                     r |= POLLOUT;
                 }
                 if !pp.r_open {
